@@ -220,7 +220,33 @@ def draw_opts(r, n, has_len, simple_ok=True):
 def plan(S, prop, mode, tier, avoid):
     if mode == "pool":
         return plan_pool(S, prop, tier, avoid)
+    if mode == "pure":
+        return plan_pure(S, prop, tier, avoid)
     return plan_wrap(S, prop, tier, avoid)
+
+
+def plan_pure(S, prop, tier, avoid):
+    """The three pure clauses of C20, addressed directly (no simulation content: stated in DESIGN.md 3.6).
+    Run indices 0..200 are the exhaustive sweep isplit(num, 1..60) for num = index; the other runs
+    sample sorts and splitarray."""
+    idx = getattr(S, "index", None)
+    if idx is not None and 0 <= idx <= 200:
+        return {"cfg": {"kind": "isplit_sweep", "num": idx, "nmax": 60}, "ops": []}
+    r = S.py("data")
+    ops = []
+    for _ in range(r.randrange(4, 16)):
+        which = wpick(r, [("qs", 3), ("qskv", 4), ("splitarray", 2), ("isplit", 1)])
+        n = wpick(r, [(0, 0.5), (1, 0.5), (2, 1), (r.randrange(3, 12), 4), (r.randrange(12, 80), 3), (r.randrange(80, 400), 1)])
+        op = {"k": which, "n": n, "seed": r.randrange(1 << 30),
+              "keymode": pick(r, ["ties", "ties2", "random", "sorted", "reversed", "constant", "float", "fties", "organ"]),
+              "container": pick(r, ["array", "array", "list"]), "dt": pick(r, ["i8", "i4", "f8", "f4", "u2"])}
+        if which == "splitarray":
+            op["nper"] = wpick(r, [(1, 1), (r.randrange(1, 12), 4), (n + 1, 1), (max(1, n), 1), (r.randrange(1, 400), 1)])
+        if which == "isplit":
+            op["n"] = r.randrange(0, 5000)
+            op["nchunks"] = r.randrange(1, 300)
+        ops.append(op)
+    return {"cfg": {"kind": "sample"}, "ops": ops}
 
 
 def plan_wrap(S, prop, tier, avoid):
@@ -330,7 +356,121 @@ def describe(script):
 def execute(script, run, env):
     if script.get("mode") == "pool":
         return execute_pool(script, run, env)
+    if script.get("mode") == "pure":
+        return execute_pure(script, run, env)
     return execute_wrap(script, run, env)
+
+
+def _judge_isplit(run, algorithm, num, nch, feats):
+    run.checks += 1
+    try:
+        subs = algorithm.isplit(num, nch)
+    except Exception as e:
+        run.fail("prog.isplit", feats, "isplit(%d,%d) raised %r" % (num, nch, e))
+        return
+    msg = ""
+    if subs.size != nch:
+        msg = "returned %d ranges" % subs.size
+    else:
+        st = subs["start"].astype("i8")
+        en = subs["end"].astype("i8")
+        sizes = en - st
+        if st[0] != 0 or en[-1] != num or np.any(st[1:] != en[:-1]) or np.any(sizes < 0):
+            msg = "ranges are not contiguous over 0..num: start=%r end=%r" % (st[:8].tolist(), en[:8].tolist())
+        elif sizes.max() - sizes.min() > 1 or np.any(np.diff(sizes) > 0):
+            msg = "sizes %r do not differ by at most one, larger first" % (sizes[:20].tolist(),)
+    if msg:
+        run.fail("prog.isplit", feats, "isplit(%d,%d): %s" % (num, nch, msg))
+
+
+def _keys(op):
+    g = np.random.Generator(np.random.PCG64(op["seed"]))
+    n = op["n"]
+    km = op["keymode"]
+    dt = op.get("dt", "i8")
+    if km == "ties":
+        k = g.integers(0, max(2, n // 3 + 1), n)
+    elif km == "ties2":
+        k = g.integers(0, 2, n)
+    elif km == "random":
+        k = g.permutation(n)
+    elif km == "sorted":
+        k = np.arange(n)
+    elif km == "reversed":
+        k = np.arange(n)[::-1].copy()
+    elif km == "constant":
+        k = np.full(n, 7)
+    elif km == "organ":
+        k = np.concatenate([np.arange(n // 2), np.arange(n - n // 2)[::-1]]) if n else np.zeros(0, dtype="i8")
+    elif km == "float":
+        k = np.round(g.normal(0, 100, n), 3)
+        dt = "f8" if dt[0] != "f" else dt
+    else:
+        k = np.round(g.normal(0, 2, n), 0)
+        dt = "f8" if dt[0] != "f" else dt
+    if dt == "u2":
+        k = np.abs(k)
+    return np.asarray(k).astype(dt)
+
+
+def execute_pure(script, run, env):
+    from esutil import algorithm, numpy_util
+    cfg = script["cfg"]
+    run.nontrivial = True
+    if cfg.get("kind") == "isplit_sweep":
+        num = cfg["num"]
+        for nch in range(1, cfg.get("nmax", 60) + 1):
+            _judge_isplit(run, algorithm, num, nch, {"stage": "isplit", "sweep": True})
+            if run.failures:
+                break
+        run.probe("isplit_sweep_row")
+        run.event(0, "isplit_sweep", str(num), "ok" if not run.failures else "fail")
+        return
+    for i, op in enumerate(script["ops"]):
+        run.step = i
+        k = op["k"]
+        if k == "isplit":
+            _judge_isplit(run, algorithm, op["n"], op["nchunks"], {"stage": "isplit"})
+            run.event(0, k, "%d/%d" % (op["n"], op["nchunks"]), "ok")
+        elif k in ("qs", "qskv"):
+            keys = _keys(op)
+            vals = np.arange(keys.size, dtype="i8") * 3 + 1
+            if op["container"] == "list":
+                inp = (keys.tolist(), vals.tolist())
+            else:
+                inp = (keys, vals)
+            try:
+                out = _work(k, inp)
+            except Exception as e:
+                run.fail("prog.sort", {"stage": k}, "%s on %d items (%s, %s) raised %r" % (k, keys.size, op["keymode"], op["container"], e))
+                break
+            _judge_sorted(run, k, inp, out, i)
+            if keys.size > 1 and np.unique(keys).size < keys.size:
+                run.probe("sort_with_ties")
+            run.event(0, k, sdigest(op), "ok", adigest(np.asarray(out[0] if k == "qskv" else out)))
+        elif k == "splitarray":
+            keys = _keys(op)
+            arg = keys.tolist() if op["container"] == "list" else keys
+            nper = op["nper"]
+            run.checks += 1
+            try:
+                kc = numpy_util.splitarray(nper, arg)
+            except Exception as e:
+                run.fail("prog.splitarray", {"stage": k}, "splitarray(%d, %s[%d]) raised %r" % (nper, op["container"], keys.size, e))
+                break
+            msg = ""
+            exp = (keys.size + nper - 1) // nper
+            if len(kc) != exp:
+                msg = "returned %d chunks, expected %d" % (len(kc), exp)
+            elif any(len(c) != nper for c in kc[:-1]) or (kc and not (1 <= len(kc[-1]) <= nper)):
+                msg = "chunk sizes %r for nper=%d" % ([len(c) for c in kc][:20], nper)
+            elif keys.size and not np.array_equal(np.concatenate([np.asarray(c) for c in kc]), keys):
+                msg = "concatenation differs from the input"
+            if msg:
+                run.fail("prog.splitarray", {"stage": k}, "splitarray(%d, %s[%d]): %s" % (nper, op["container"], keys.size, msg))
+            run.event(0, k, sdigest(op), "ok")
+        if run.failures:
+            break
 
 
 def _optclass(cfg):
@@ -819,6 +959,17 @@ def _bucket(k):
 def simplify(script):
     cfg = script["cfg"]
     ops = script["ops"]
+    if script.get("mode") == "pure":
+        if cfg.get("kind") == "isplit_sweep":
+            return
+        for i, op in enumerate(ops):
+            for nn in (0, 1, 2, 3, op["n"] // 2, op["n"] - 1):
+                if 0 <= nn < op["n"]:
+                    yield dict(script, ops=ops[:i] + [dict(op, n=nn)] + ops[i + 1:])
+            for key, val in (("container", "array"), ("dt", "i8"), ("keymode", "ties2"), ("keymode", "constant")):
+                if op.get(key) != val:
+                    yield dict(script, ops=ops[:i] + [dict(op, **{key: val})] + ops[i + 1:])
+        return
     if script.get("mode") == "pool":
         for key, val in (("nproc", 2), ("nproc", 1), ("chunksize", 1), ("kw", {}), ("pipeline", None),
                          ("tiebreak", "index")):
